@@ -3,7 +3,7 @@
    OCaml's own types; nat, N, Z, positive stay extracted datatypes. *)
 From Coq Require Extraction.
 From Coq Require Import ExtrOcamlBasic.
-From VL Require Import Bytes Lit Lit2 Idl IdlDump Wire Json JsonDump Service Client Resolver Addr Lifecycle Ctxio Gen Typed.
+From VL Require Import Bytes Lit Lit2 Idl IdlDump Wire Json JsonDump Service Client Resolver Addr Lifecycle Ctxio Gen Typed RegLife.
 Extraction "model.ml" idl_case idl_oracle parse dump_presult
   run_ops read_all split_frames frame
   marshal_value compact_raw valid json_parse_case json_compact_case json_struct_case sort_members
@@ -14,4 +14,5 @@ Extraction "model.ml" idl_case idl_oracle parse dump_presult
   c_init cstep outcomes
   l_init lstep get_obj cur_obj conn_st
   svc_init svc_bind svc_start svc_stop client_connect remove_file svc_parse client_parse activation_fd choose_listener atoi
-  org_varlink_service m_GetInfo step_conn cs_init cut_at stream_of dump_fval org_varlink_resolver resolve_request resolver_info_request get_info_request get_descr_request call_params new_service register set_running builtin route handle_call.
+  org_varlink_service m_GetInfo step_conn cs_init cut_at stream_of dump_fval org_varlink_resolver resolve_request resolver_info_request get_info_request get_descr_request call_params new_service register set_running builtin route handle_call
+  rl_init rl_step rl_run events_of busy.
